@@ -107,12 +107,14 @@ def run(ctx):
     plan = [("lock", n, {}), ("lock", n // 2, {"VRT_STRATEGY": "pct"}), ("lock", n // 3, {"VRT_CAS_WEAK_FAIL": "2"}),
             ("grow", n // 2, {}), ("grow", n // 4, {"VRT_STRATEGY": "pct"})]
     for mode, cnt, env in plan:
-        if len(ctx.failing) + len(ctx.broken) > 8:
-            break
-        runs = ctx.econc(exe, drv if mode == "lock" else None, [mode], seed0, cnt, env=env)
         key = mode + ("/" + ",".join("%s=%s" % kv for kv in sorted(env.items())) if env else "")
-        dist["modes"][key] = len(runs)
-        _classify(ctx, dist, distinct, samples, mode, env, runs, mode == "lock")
+        done = 0
+        while done < cnt and len(ctx.failing) < 5 and len([b for b in ctx.broken if b[0] == "correspondence"]) < 5:
+            k = min(100, cnt - done)   # batches, so that a broken implementation (every run deadlocks) stops the search early
+            runs = ctx.econc(exe, drv if mode == "lock" else None, [mode], seed0 + done, k, env=env)
+            done += k
+            dist["modes"][key] = dist["modes"].get(key, 0) + len(runs)
+            _classify(ctx, dist, distinct, samples, mode, env, runs, mode == "lock")
     ctx.cov["distribution"] = dist
     ctx.cov["distinct_nontrivial"] = len(distinct)
     ctx.cov["traces_validated_against_impl"] = dist["replay_ok"]
